@@ -366,11 +366,18 @@ func CustomCase(r *rand.Rand, name string, o CustomOpts) *Case {
 			shape := func() *Type {
 				return Struct(F("V", Basic("int")), F("Tag", Basic("string")), F(fmt.Sprintf("K%d", i), Basic("int")))
 			}
+			// the target shape has one field more, so that the two unnamed types are never identical (an identical
+			// pair would be passed through under skipCopySameType and field settings on it are an error)
+			shapeT := func() *Type {
+				t := shape()
+				t.Fields = append(t.Fields, F("TOnly", Basic("bool")))
+				return t
+			}
 			su := decl(fmt.Sprintf("SU%d", i), shape())
-			tu := decl(fmt.Sprintf("TU%d", i), shape())
+			tu := decl(fmt.Sprintf("TU%d", i), shapeT())
 			mname := fmt.Sprintf("MU%d", i)
-			dm := &Method{Name: mname, Params: []Param{{Name: "source", T: shape(), Role: "source"}}, Result: shape(), Lines: []string{"ignore Tag"},
-				Spec: &vref.MethodSpec{Name: mname, Roles: []string{"source"}, Fields: map[string]vref.FieldSpec{"Tag": {Ignore: true}}}}
+			dm := &Method{Name: mname, Params: []Param{{Name: "source", T: shape(), Role: "source"}}, Result: shapeT(), Lines: []string{"ignore Tag TOnly"},
+				Spec: &vref.MethodSpec{Name: mname, Roles: []string{"source"}, Fields: map[string]vref.FieldSpec{"Tag": {Ignore: true}, "TOnly": {Ignore: true}}}}
 			declared = append(declared, dm)
 			f := fmt.Sprintf("UM%d", i)
 			sS.Fields = append(sS.Fields, F(f, Named(su)), F(f+"L", Slice(Named(su))))
